@@ -33,6 +33,20 @@ Theorem C08_ids_unique : forall steps id1 id2 s1 s2,
   first_source s1 = first_source s2 -> id1 = id2.
 Proof. exact ids_unique. Qed.
 
+(* the steps of [run_batches] ARE FromPcap calls: without a usable snapshot and below the snapshot interval,
+   Import.import = assemble the feed of all known and new captures (C05: the global sort), then [dump] *)
+Theorem C08_import_without_snapshot_is_dump : forall hashf thr final_flush b st newfiles stack i0 rest,
+  b_snaps b = [] ->
+  flat_map (fun f => match store_get st f with [] => [] | l => [info_of f l] end) newfiles = i0 :: rest ->
+  let newfiles' := map pi_file (i0 :: rest) in
+  let fed := feed (needed_pcaps b None newfiles' st) (flat_map (store_get st) newfiles') in
+  N.of_nat (length fed) <= thr ->
+  forall res nx', dump (written hashf final_flush fed) newfiles' stack (next_stream_id stack) (mkResult [] 0 [] [] []) = (res, nx') ->
+  import hashf thr final_flush b st newfiles stack =
+    (mkBuilder (b_known b ++ i0 :: rest) [],
+     Some (mkResult (r_index res) (nx' - next_stream_id stack) (r_upd res) (r_reset res) (r_added res))).
+Proof. exact import_without_snapshot_is_dump. Qed.
+
 (* the hypotheses are satisfiable (a UDP flow continued in a second capture) *)
 Example C08_chain_example : extends [1] [s_p1] [s_p12] /\ wf_factory [s_p1] /\ wf_factory [s_p12] /\
                             chain [] [([0], [s_p1]); ([1], [s_p12])].
